@@ -6,6 +6,7 @@ import OxiVerif.Lemmas.C07Chain
 import OxiVerif.Lemmas.C07Flate
 import OxiVerif.Lemmas.C07Tiff
 import OxiVerif.Lemmas.C07Lzw
+import OxiVerif.Lemmas.C07FlateFixed
 import OxiVerif.Model.C07Ccitt
 /-!
 C07 — every supported stream filter decodes exactly what a reference encoder encoded.
@@ -256,9 +257,9 @@ theorem tryStandardZlib_stored (block : Nat) (b : List Nat) (hL : b.length ≤ m
 
 /- FULL: for every conforming deflate encoder `enc` (any mix of stored / fixed / dynamic Huffman
    blocks, any match finder):  applyFilterWithParams E (enc b) .flate none = .ok b.
-   Proved here for the reference encoder with STORED blocks only (every block size 1…65535, every
-   byte string).  Missing: Huffman-coded blocks — real zlib output of flate2 at levels 0–9 is covered
-   by the correspondence run (Lean inflate = flate2's answer, model = implementation, result =
+   Proved here for two reference encoders: STORED blocks (every block size 1…65535) and one
+   FIXED-HUFFMAN block of literals, every byte string.  Missing: length/distance pairs and dynamic
+   Huffman tables — real zlib output of flate2 at levels 0–9 is covered by the correspondence run (Lean inflate = flate2's answer, model = implementation, result =
    plaintext on every generated case), not by a theorem. -/
 theorem C07_flate_stored_roundtrip_partial (block : Nat) (b : List Nat) (p : Option Dict)
     (hp : NoPredictor p) (hL : b.length ≤ maxDecompressedSize) :
@@ -270,6 +271,34 @@ theorem C07_flate_stored_roundtrip_partial (block : Nat) (b : List Nat) (p : Opt
   | some d =>
     have := hp d rfl
     simp [this, decodeFlate, hz, Res.bind]
+
+/-- **Flate, one fixed-Huffman block of literals** (RFC 1951 §3.2.6): the canonical-code walk of the
+decoder through the fixed literal/length table (8-bit codes for 0–143, 9-bit codes for 144–255, the
+7-bit end-of-block), LSB-first bit packing, alignment and Adler-32 — every byte string. -/
+theorem C07_flate_fixed_roundtrip_partial (b : List Nat) (p : Option Dict) (hb : Bytes b)
+    (hp : NoPredictor p) (hL : b.length ≤ ratioGuardMinOutput) :
+    applyFilterWithParams inflateExt (zlibFixed b) .flate p = .ok b := by
+  have hz : tryStandardZlib inflateExt (zlibFixed b) = .ok (some b) := by
+    unfold tryStandardZlib inflateExt
+    have h := Inflate.zlibInflate_zlibFixed b [] hb (by simp [Bytes])
+    rw [List.append_nil] at h
+    simp only [h, Res.bind]
+    have hmax : ratioGuardMinOutput ≤ maxDecompressedSize := by decide
+    rw [if_neg (by omega)]
+    have hratio : ratioOk (zlibFixed b).length b.length = true := by
+      unfold ratioOk
+      have : ¬ b.length > ratioGuardMinOutput := by omega
+      simp [this]
+    rw [hratio]; rfl
+  unfold applyFilterWithParams
+  cases p with
+  | none => simp [decodeFlate, hz, Res.bind]
+  | some d =>
+    have := hp d rfl
+    simp [this, decodeFlate, hz, Res.bind]
+
+example : applyFilterWithParams inflateExt (zlibFixed [5, 200, 7]) .flate none = .ok [5, 200, 7] :=
+  C07_flate_fixed_roundtrip_partial [5, 200, 7] none (by decide) (fun _ h => by cases h) (by decide)
 
 example : applyFilterWithParams inflateExt (zlibStored 2 [5, 6, 7]) .flate none = .ok [5, 6, 7] :=
   C07_flate_stored_roundtrip_partial 2 [5, 6, 7] none (fun _ h => by cases h) (by decide)
